@@ -455,9 +455,13 @@ resultBreakContinue:
 }
 
 func (rt *runtime) cmplEvaluateNodeWithStatement(node *nodeWithStatement) Value {
-	obj := rt.cmplEvaluateNodeExpression(node.object)
+	obj := rt.cmplEvaluateNodeExpression(node.object).resolve()
+	if obj.IsUndefined() || obj.IsNull() {
+		// raised here, where the position of the expression is known
+		panic(rt.panicTypeError("toObject unsupported kind %s", obj.kind, at(node.idx)))
+	}
 	outer := rt.scope.lexical
-	lexical := rt.newObjectStash(rt.toObject(obj.resolve()), outer)
+	lexical := rt.newObjectStash(rt.toObject(obj), outer)
 	rt.scope.lexical = lexical
 	defer func() {
 		rt.scope.lexical = outer
